@@ -103,6 +103,9 @@ pub fn gen_graph(g: &mut G, max_len: usize) -> Graph {
                     let port = *g.pick(PORTS);
                     (format!("//{}:{}{}?s={}", h, port, fresh_path(g, i + 1), i), "scheme-relative")
                 }
+                // (no draw) some servers put raw UTF-8 into the field: not a URI, strictly speaking - a client
+                // either refuses it or asks for exactly those octets (percent-encoded), never for other ones
+                2 if (i + len) % 4 == 1 => (format!("/caf\u{e9}-\u{20ac}{}?ap={}", fresh_path(g, i + 1), i), "absolute-path-raw-utf8"),
                 2 => (format!("{}?ap={}", fresh_path(g, i + 1), i), "absolute-path"),
                 3 => {
                     let r = *g.pick(&["n", "./n", "../n", "sub/./n", "../../n", "x/../n", "../../../../n", "./a/b/../../n"]);
@@ -117,7 +120,9 @@ pub fn gen_graph(g: &mut G, max_len: usize) -> Graph {
                     (format!("HTTP://{}{}", h.to_ascii_uppercase(), fresh_path(g, i + 1)), "absolute-uppercase")
                 }
             };
-            let next_url = canon(&urlref::resolve(&cur, &loc));
+            // the reference reads octets outside ASCII as themselves, percent-encoded
+            let loc_ref: String = loc.bytes().map(|b| if b < 0x80 { (b as char).to_string() } else { format!("%{:02X}", b) }).collect();
+            let next_url = canon(&urlref::resolve(&cur, &loc_ref));
             let next_idx = nodes.iter().position(|n| n.url == next_url).or(if next_url == cur { Some(nodes.len()) } else { None });
             let body_flaw = if g.chance(1, 4) { 1 + g.below(3) as u8 } else { 0 };
             if body_flaw != 0 {
@@ -525,6 +530,14 @@ pub fn scenario(g: &mut G, ctx: &RunCtx) -> RunReport {
                 violation("too-many-requests", format!("{} requests sent with max_redirections={}: {:?}", got.len(), eff_max, got))
             } else if !follow && got.len() != 1 {
                 violation("followed-although-disabled", format!("{} requests sent with follow_redirects(false)", got.len()))
+            } else if matches!(res, Err(k) if k.contains("Location") || k.contains("Url"))
+                && !got.is_empty()
+                && got.len() <= want_urls.len()
+                && got[..] == want_urls[..got.len()]
+                && gr.nodes[want_reqs[got.len() - 1]].form == "absolute-path-raw-utf8"
+            {
+                // refused: the field value is not a URI
+                Verdict::Pass
             } else if got != want_urls {
                 let forms: Vec<&str> = gr.nodes.iter().map(|n| n.form).collect();
                 let k = got.iter().zip(want_urls.iter()).position(|(a, b)| a != b).unwrap_or(got.len().min(want_urls.len()));
